@@ -87,6 +87,88 @@ type Recorder struct {
 	// Hook, if set, is called (without the lock) before every faultable event
 	// and statement close; used by schedule-owning checks to park calls.
 	Hook func(e *Event)
+
+	// rows-iteration tracking (opt-in, see TrackRows): Next calls are counted
+	// and faultable separately from the event log, so enabling it changes
+	// neither Events() nor the indexes of Faultable()/SetFault.
+	trackRows bool
+	nextCalls int
+	rowsFault RowsFault
+}
+
+// RowsFault decides whether the idx-th (0-based, since the last
+// Reset/SetRowsFault) driver.Rows.Next call fails; query is the text of the
+// statement whose rows are being read.
+type RowsFault func(idx int, query string) error
+
+// TrackRows switches the wrapping of result sets on or off. While on, every
+// Rows.Next of queries issued afterwards is counted (RowsNexts) and can be
+// failed by the plan of SetRowsFault: the failing Next does not reach SQLite
+// and returns the plan's error, which database/sql surfaces as rows.Err().
+// This is how a driver reports a statement that fails while it is executed
+// lazily (SQLite: constraint violation of INSERT/UPDATE/DELETE ... RETURNING).
+func (r *Recorder) TrackRows(on bool) { r.mu.Lock(); r.trackRows = on; r.mu.Unlock() }
+
+// SetRowsFault installs (or, with nil, removes) the rows-iteration fault plan
+// and resets the Next counter.
+func (r *Recorder) SetRowsFault(f RowsFault) {
+	r.mu.Lock()
+	r.rowsFault = f
+	r.nextCalls = 0
+	r.mu.Unlock()
+}
+
+// FailNthNext returns a plan failing the n-th (0-based) Rows.Next call with err.
+func FailNthNext(n int, err error) RowsFault {
+	return func(idx int, query string) error {
+		if idx == n {
+			return err
+		}
+		return nil
+	}
+}
+
+// RowsNexts returns the number of Rows.Next calls seen since the last
+// Reset/SetRowsFault (only counted while TrackRows is on).
+func (r *Recorder) RowsNexts() int { r.mu.Lock(); defer r.mu.Unlock(); return r.nextCalls }
+
+// wrapRows wraps a result set when tracking is on.
+func (r *Recorder) wrapRows(rows driver.Rows, query string) driver.Rows {
+	r.mu.Lock()
+	on := r.trackRows
+	r.mu.Unlock()
+	if !on || rows == nil {
+		return rows
+	}
+	if sr, ok := rows.(*sqlite3.SQLiteRows); ok {
+		return &trackedRows{SQLiteRows: sr, r: r, query: query}
+	}
+	return rows
+}
+
+// trackedRows embeds the SQLite result set (so the optional column-type
+// interfaces stay available) and intercepts Next.
+type trackedRows struct {
+	*sqlite3.SQLiteRows
+	r     *Recorder
+	query string
+}
+
+func (t *trackedRows) Next(dest []driver.Value) error {
+	t.r.mu.Lock()
+	idx := t.r.nextCalls
+	t.r.nextCalls++
+	plan := t.r.rowsFault
+	if !t.r.recording {
+		plan = nil
+	}
+	t.r.mu.Unlock()
+	if plan != nil { // called without the lock: the plan may consult the recorder
+		if err := plan(idx, t.query); err != nil {
+			return err
+		}
+	}
+	return t.SQLiteRows.Next(dest)
 }
 
 var (
@@ -146,6 +228,7 @@ func (r *Recorder) Reset() {
 	r.mu.Lock()
 	r.events = nil
 	r.faultable = 0
+	r.nextCalls = 0
 	r.mu.Unlock()
 }
 
@@ -349,7 +432,10 @@ func (c *conn) QueryContext(ctx context.Context, q string, args []driver.NamedVa
 	}
 	rows, err := c.raw.QueryContext(ctx, q, args)
 	c.r.setErr(e.Seq, err)
-	return rows, err
+	if err != nil {
+		return rows, err
+	}
+	return c.r.wrapRows(rows, q), nil
 }
 
 type tx struct {
@@ -445,5 +531,8 @@ func (s *stmt) QueryContext(ctx context.Context, args []driver.NamedValue) (driv
 	}
 	rows, err := s.raw.QueryContext(ctx, args)
 	s.c.r.setErr(e.Seq, err)
-	return rows, err
+	if err != nil {
+		return rows, err
+	}
+	return s.c.r.wrapRows(rows, s.text), nil
 }
